@@ -89,9 +89,9 @@ package aquahash
 // the epoch is in range, the difficulty is positive, the mix digest is all zero and the
 // version-selected hash of HashNoNonce || nonce (little endian) is at most 2^256 / difficulty.
 //@ func Aquahash.VerifySeal
-//@   requires aquahash != nil && aquahash.config != nil && header != nil && header.Number != nil && header.Difficulty != nil
-//@   requires aquahash.config.PowMode != ModeFake && aquahash.config.PowMode != ModeFullFake && aquahash.shared == nil
-//@   requires header.Version >= 2 && header.Version <= 4
+//@   requires[C14] aquahash != nil && aquahash.config != nil && header != nil && header.Number != nil && header.Difficulty != nil
+//@   requires[C14] aquahash.config.PowMode != ModeFake && aquahash.config.PowMode != ModeFullFake && aquahash.shared == nil
+//@   requires[C14] header.Version >= 2 && header.Version <= 4
 //@   let h = vhash(uint8(header.Version), word8(hnn(header), 0), word8(hnn(header), 8), word8(hnn(header), 16), word8(hnn(header), 24), noncerev(header.Nonce))
 //@   let zeromix = forall k int :: 0 <= k && k < 32 ==> header.MixDigest[k] == 0
 //@   ensures[C14] @epoch result == nil ==> L(big(header.Number)) / 30000 < 2048 && big(header.Difficulty) > 0
@@ -110,3 +110,30 @@ package aquahash
 //@   requires aquahash.config.PowMode != ModeFullFake && as(chaincfg(chain), "*params.ChainConfig") != nil
 //@   ensures[C13] @count result == nil ==> slicelen(blockuncles(block)) <= uint64(2)
 //@   ensures[C13] @counthf5 result == nil && old(ishf(as(chaincfg(chain), "*params.ChainConfig"), 5, big(block.header.Number))) ==> slicelen(blockuncles(block)) <= uint64(1)
+
+// ---- header acceptance (C13) ---------------------------------------------------------------------
+// Ghost record of the difficulty CalcDifficulty computed last and of VerifySeal's last verdict
+// (ghost instrumentation); CalcDifficulty reads the chain and the headers and modifies no big.Int
+// the caller holds (trusted partial frame). The formula itself is proved on calcDifficultyHFX.
+//@ ghost expected_diff Int
+//@ ghost seal_ok Bool
+//@ func Aquahash.CalcDifficulty
+//@   axiom result != nil && expected_diff == big(result)
+//@   assigns expected_diff, inferred
+//@   keeps big
+
+// A header passes verifyHeader only if: its extra data is at most 32 bytes; its time is after its
+// parent's (and, for an uncle, at most 2^256-1); its difficulty equals the scheduled one; its gas
+// limit is at most 2^63-1, at least 5000 and differs from the parent's by less than 1/1024 of the
+// parent's; gas used does not exceed the limit; its number is the parent's plus one; and, when
+// requested, its seal verifies.
+//@ func Aquahash.verifyHeader
+//@   requires aquahash != nil && header != nil && parent != nil && header.Time != nil && header.Number != nil && header.Difficulty != nil
+//@   requires parent.Time != nil && parent.Number != nil && parent.GasLimit <= 9223372036854775807
+//@   ensures[C13] @extra result == nil ==> old(len(header.Extra)) <= 32
+//@   ensures[C13] @time result == nil ==> old(big(header.Time)) > old(big(parent.Time)) && (uncle ==> old(big(header.Time)) < TT256)
+//@   ensures[C13] @difficulty result == nil ==> old(big(header.Difficulty)) == expected_diff
+//@   ensures[C13] @gaslimit result == nil ==> old(header.GasLimit) <= 9223372036854775807 && old(header.GasLimit) >= 5000 && old(header.GasUsed) <= old(header.GasLimit)
+//@   ensures[C13] @gasbound result == nil ==> (old(parent.GasLimit) >= old(header.GasLimit) ==> old(parent.GasLimit) - old(header.GasLimit) < old(parent.GasLimit) / 1024)
+//@     && (old(header.GasLimit) > old(parent.GasLimit) ==> old(header.GasLimit) - old(parent.GasLimit) < old(parent.GasLimit) / 1024)
+//@   ensures[C13] @number result == nil ==> old(big(header.Number)) == old(big(parent.Number)) + 1
